@@ -288,6 +288,12 @@ def _oracle_hist(case):
             want = _ref_check(st)
             if want is not None and got[0] != want:
                 fails.append(_fail("validator-exact", "%s: verdict %r, reference %r" % (where, got[0], want)))
+            if st.get("api") in ("batch", "df") and isinstance(got[1], list) and want is not None:
+                import re
+                sr = lambda x: 100.0 if re.search(r":\d+", x) else 0.0
+                exp = [["x", 100.0 if want else 0.0, [want], sr(st["m"])], ["y", 100.0, [True], sr(st["t"])]]
+                if got[1] != exp and G9.ref_its(st["t"]) is not None:
+                    fails.append(_fail("validator-batch", "%s: validate_smiles rows %r, expected %r" % (where, got[1], exp)))
         elif st["op"] == "bal" and st.get("api") in ("rsmi", "dict", "dicts", "dicts_str", "dicts_one") and isinstance(got, list):
             vs = got if st["api"] == "rsmi" else got[0]
             rs = list(st["rsmis"]) if st["api"] != "dicts_one" else list(st["rsmis"])[:1]
@@ -468,7 +474,11 @@ def _oracle_canon(case):
         dist = G9.all_distinguishable(a0)
         if dist and (be != "wl" or G9.wl_colours_distinct(a0)):
             try:
-                out0 = _canon(case["orig"], be).canonical_rsmi
+                c0 = _canon(case["orig"], be)
+                out0 = c0.canonical_rsmi
+                h0, h1 = c0.canonical_hash, _canon(r, be).canonical_hash
+                if out0 == out and h0 != h1:
+                    fails.append(_fail("canon-numbering-independent", "canonical_hash differs (%r vs %r) for %r and %r" % (h1, h0, r, case["orig"])))
             except _Slow:
                 raise
             except Exception as e:
@@ -728,7 +738,7 @@ def gen_histories(tier, rng, corp):
     q = tier == "quick"
     cases = []
     small = [x for x in corp if len(R.map_numbers(x[2])) <= 28]
-    plain = [HAND_CANON[1], HAND_CANON[2], HAND_CANON[6]] + [x[2] for x in rng.sample(small, 3 if q else 25)]
+    plain = [HAND_CANON[1], HAND_CANON[2]] + [x[2] for x in rng.sample(small, 2 if q else 25)]
     arom = list(AROM) if not q else rng.sample(AROM, 4)
     APIS = ("pos", "kw", "inst", "pair", "batch", "df", "equiv")
 
@@ -755,9 +765,12 @@ def gen_histories(tier, rng, corp):
             if len(R.map_numbers(t)) <= 10:
                 steps.insert(1, chk(m, t, "RC", True, "taut"))
             cases.append(_hist("valid", steps, src))
-    for d in DEGENERATE:
-        cases.append(_hist("valid", [chk(d, d, "RC", False, "pos"), chk(d, d, "ITS", True, "kw"), chk(d, DEGENERATE[12], "RC", False, "pair"),
-                                     chk(DEGENERATE[12], d, "ITS", False, "batch")], "degenerate"))
+    for k in range(0, len(DEGENERATE), 3):
+        steps = []
+        for d in DEGENERATE[k:k + 3]:
+            steps += [chk(d, d, "RC", False, "pos"), chk(d, d, "ITS", True, "kw"), chk(d, DEGENERATE[12], "RC", False, "pair"),
+                      chk(DEGENERATE[12], d, "ITS", False, "batch")]
+        cases.append(_hist("valid", steps, "degenerate"))
 
     # ---- canonicaliser: one object reused, results mutated by the caller, options / back-ends in sequence
     ATTRS = [list(DEFAULT_ATTRS), ["hcount", "charge", "aromatic", "element"], ["element"], ["element", "aromatic", "charge", "hcount", "neighbors"]]
@@ -926,11 +939,14 @@ def gen_cases(tier, rng):
     return cases
 
 
-RULE = ("mapped reactions of the two corpora (USPTO test set 100, E. coli 274 minus 28 malformed) and hand-written ones, with PRNG renumberings, "
-        "RDKit re-rootings (RenumberAtoms + non-canonical writer), fragment shuffles, partial un-mapping, explicit-H rewriting, centre-atom "
-        "transpositions classified by the automorphisms of the reference centre, unbalanced variants (fragment deleted / duplicated, charge "
-        "changed, hydrogen dropped / added); back-ends wl and nauty; non-trivial = canonicalisation with >= 2 mapping pairs, validator pair of "
-        "two different strings, balance verdict on a readable reaction, Standardize case with variants; distinct = distinct case inputs")
+RULE = ("mapped reactions of the two corpora (USPTO test set 100, E. coli 274 minus 28 malformed) and hand-written ones, with PRNG renumberings "
+        "(also into 100..2500), RDKit re-rootings (RenumberAtoms + non-canonical writer), fragment shuffles, partial un-mapping, explicit-H "
+        "rewriting, centre-atom transpositions classified by the automorphisms of the reference centre, unbalanced variants (fragment deleted / "
+        "duplicated, charge changed, hydrogen dropped / added); back-ends wl, nauty, generic, morgan and their options; HISTORIES: scripts of "
+        "3-14 API calls on shared objects in one process (validator options in both orders, every API form, reused CanonRSMI / Standardize / "
+        "BalanceReactionCheck objects, results mutated by the caller), every step judged; degenerate strings (empty side, single atom, unmapped, "
+        "map number 0, repeated map numbers, %10 ring closures); non-trivial = canonicalisation with >= 2 mapping pairs, validator pair of two "
+        "different strings, balance verdict on a readable reaction, Standardize / NormalizeAAM case, history with >= 2 steps; distinct = distinct case inputs")
 EXHAUSTIVE = {"quick": False, "thorough": False}
 EXPLANATION = ("Sampled (quick) / whole corpus (thorough).  The correspondence compares graph-level intermediate results: canonical reactant "
                "graph, mapping_pairs and canonical product graph of CanonRSMI (model: canonical order from the C08 model of the back-end, "
@@ -951,6 +967,10 @@ ASSUMPTIONS = [
     "CanonRSMI with default wl_iterations / node_attrs, back-ends wl and nauty; AAMValidator.smiles_check with ignore_aromaticity=False",
 ]
 TESTED_NOT_PROVED = [
+    "history independence of the IMPLEMENTATION (no stale instance state / module-level cache / aliasing of returned objects): every step of "
+    "every history is compared with a fresh evaluation and with the pure model function; in the model it holds by construction",
+    "FixAAM.fix_aam_rsmi is a renumbering, NormalizeAAM.fit keeps the reaction centre (oracle only); smiles_check_tautomer (fresh-vs-history only); "
+    "back-end morgan (oracle only)",
     "Standardize.fit idempotent / invariant under atom order, fragment order, map numbers (pure RDKit: oracle on every run, no model)",
     "string-level fixed point and numbering independence of CanonRSMI.canonical_rsmi (needs RDKit's canonical writer: oracle on every run)",
     "CalcMolFormula string equality <=> equal element counts and charge (RDKit oracle; the graph-level formula is proved, the verdicts are compared on every run)",
@@ -968,7 +988,10 @@ LEVEL_TEXT = ("Machine-checked proof (Coq) over an executable graph-level model 
               "isomorphic on typesGH and bond-order pairs, hence accepts every renumbering (also with re-ordered atoms and rewritten atom_map "
               "attributes) and rejects every swapped mapping that is not equivalent; the graph-level balance check is true exactly when all element counts (with hydrogens) and the total charge agree. "
               "Numbering independence (for renamings that keep the relative order of product atoms without reactant partner) and fixed point "
-              "(all reactions) are proved at graph level relative to an explicit invariance premise on the graph canonicaliser (_partial). "
+              "(all reactions) are proved at graph level: in general relative to an explicit invariance premise on the graph canonicaliser, and with "
+              "that premise discharged for wl (corresponding, pairwise distinct colours) and for nauty (reactant graph without non-trivial "
+              "automorphism; from the C08 theorems about the search) - _partial only through the RDKit writer/parser contract. The validator is "
+              "exact under both values of ignore_aromaticity; the model functions are pure (no state between calls). "
               "The model is compared with the Python "
               "code on every run (canonical graphs, mapping pairs, verdicts, reaction centres, element counts; back-ends wl and nauty).")
 LEVEL_NOTE = ("Not proved, only tested on every run (independent oracle: plain RDKit reading + VF2 + Counter): the string-level clauses that live in "
